@@ -95,13 +95,16 @@ func init() {
 		ID: "C08",
 		Rule: "quick: all repo test files + 2 000 generated progressive files + 600 generated fragmented histories (2 files each), thorough: + 100 000 progressive files + 20 000 fragmented histories; plus 7 giant files (ftyp, an mdat whose box size is 2^32-1, 2^32-2, 2^32-9 with a compact header or 2^32-1, 2^32, 2^32+16, 2^33+5 with a 64-bit header, then a uuid box) served by a virtual ReadSeeker (real bytes at both ends of the payload, zeros between) and judged, in lazy mode only, against the layout they were built with: box list, mdat Size/HeaderSize/PayloadAbsoluteOffset/StartPos, position of the box behind the mdat, File.Size, Encode = the header, ReadData/CopyData at both payload ends, File.Encode and File.EncodeSW (slice writer of 1 KiB) = ftyp + mdat header + uuid, fewer than 1 MiB read. One case = one file decoded twice (mp4.DecodeFile in normal mode from a bytes.Reader and with WithDecodeMode(DecModeLazyMdat) from the reader of the case, see below). Files: every file of at most 512 KiB under the repo's testdata directories (progressive, fragmented, encrypted, init-only; files both modes reject are counted, not compared) " +
 			"followed by generated progressive files (gen/prog.RandomTables, own serializer): 1..2 tracks, 1..48 samples, mdat payload about 0..4 KiB (budgets 8, 32, 96, 512, 4096 bytes), compact and forced 64-bit mdat headers, mdat before and after moov, free box, junk gaps, stco/co64, arbitrary chunk interleaving. " +
-			"Compared: acceptance, top-level box list, Size() of every box and of the file, reflect.DeepEqual of every non-mdat box, per-fragment moof equality for fragmented files, StartPos/LargeSize/HeaderSize/PayloadAbsoluteOffset of every mdat in both modes and against the reference walker, File.Info dumps at all:1; " +
+			"Compared: acceptance, top-level box list, Size() of every box and of the file, reflect.DeepEqual of every non-mdat box, per-fragment moof equality for fragmented files, StartPos/LargeSize/HeaderSize/PayloadAbsoluteOffset of every mdat in both modes and against the reference walker, File.Info dumps at all:1 (more level specs: round 7 below); " +
 			"for every mdat: lazy Encode and EncodeSW = the original header bytes, header + CopyData(whole payload) = the original box; ReadData and CopyData in both modes for ALL (start,size>=1) ranges inside the payload when it has at most 96 bytes, otherwise all ranges that start in the first 3 or end in the last 3 payload bytes combined with boundary sizes plus 200 random ranges, expected = file[start:start+size], and the four most recent lazy ReadData results are held and must still equal the file after every later lazy call on the same box; " +
 			"ranges partly or wholly outside the payload: an error is fine, returned bytes must be the file's bytes at that range. " +
 			"Readers (round 6): every case draws a primary io.ReadSeeker kind (weights /16) that serves the lazy decode and all lazy data calls: bytes.Reader 4, 1..5 bytes per Read 3 (data calls only), io.SectionReader over a blob with the file at base offset {1,7,1000} 2, a reader that returns its last bytes together with io.EOF 2, base-offset wrappers (file at offset {1,7,1000} inside a blob of other bytes with other bytes behind it; own Read/Seek, the storage's ReadAt/WriteTo are promoted and address the blob) embedding *bytes.Reader 2, *io.SectionReader 1, *os.File on a scratch file 1, plain *os.File 1; and every mdat of every file is additionally read through ALL other kinds on whole payload, first byte, last byte, payload minus first/last byte and 3 random ranges (ReadData + CopyData), every track through all other kinds for samples 1..n, n..n, 1..1 x work buffers {nil, 7, total+5}; counters reader:<kind> / <function> give the lazy calls per kind. " +
 			"Second family (round 6), generated fragmented files: gen/frag.Generate histories (1..3 tracks, up to 3x3 fragments of up to 8 samples, full/metadata-only/interval mdat modes, compact and 64-bit mdat headers, emsg/free/unknown extras, every 8th with sidx/mfra/styp layouts, 2 of 8 single-track) built through the fragment API (as-built file) and rewritten on the byte level by gen/frag.Reshape (5 of 6 fragments: 1..4 truns per traf, 1..3 trafs per track, run data permuted and/or separated by filler, filler between the mdat header and the first data byte and after the last, 1 in 4 with a 16-byte mdat header); decode flags 0 (5 of 8), DecISMFlag, DecStartOnMoof or both, the same in both modes. Both files run through everything above. " +
 			"Whole-file encodes (round 6): progressive files: File.Encode and File.EncodeSW (slice writer of File.Size() bytes) of both trees; fragmented files (repo and generated): a fresh pair of trees per mode, EncModeBoxTree and EncModeSegment, File.Encode and File.EncodeSW each. Judged mode against mode: the in-memory output is read with the reference walker, the lazy output must be exactly those bytes with the payload of every top-level mdat removed (so every other box is byte-identical, every lazy mdat is its header, nothing follows a header but the next box); one-sided errors/panics are violations, the moof trees after a segment-mode encode must still be DeepEqual (trun data offsets). Box level: Encode and EncodeSW of every non-mdat top-level box give the same bytes in both modes. " +
 			"Sample access in fragments (round 6): for single-traf single-trun fragments Fragment.GetSampleInterval in both modes for all intervals (at most 6 samples, else boundary + 6 random): same offset/size/time/samples, the lazy interval read with ReadData and CopyData = the file = the in-memory interval's Data, and for generated files = the samples the independent reader ref/frag finds; for every track of every fragment the in-memory Fragment.GetFullSamples against lazy ReadData/CopyData of each sample's range as located by ref/frag (covers multi-trun, multi-traf, permuted and gapped data). " +
+			"Round 7, on every file both modes accept (files of at most 256 KiB; draws from a generator of its own, seeded by VERIF_SEED and the file bytes): (a) File.Info of both trees also at the level specs all:2, mdat:2, all:1,mdat:3, the empty spec and one drawn per case (1..4 box types present in the file with levels 0..3, optionally all:N and mdat:1..4, in random order), before anything else touches the trees: same text, same outcome. " +
+			"(b) Decode starts that are not offset 0 of the ReadSeeker: the file behind a prefix of other bytes (1, 7, 8, 1000, 4096, random < 5002 bytes; 1 in 8 behind a virtual prefix of more than 4 GiB) or stored twice back to back with the reader at the start of the second copy (one of the two per case), and the tail of the file from a PRNG-chosen top-level box boundary with the reader over the whole file positioned there; readers bytes.Reader, data+io.EOF, io.SectionReader, *os.File (1 in 10), all positioned with Seek before DecodeFile(rs, WithDecodeMode(DecModeLazyMdat)) (decode flags of the case without DecISMFlag). Expected = the in-memory decode of the bytes from the decode start on (bytes.Reader over exactly those bytes) and the reference walker's boxes of those bytes: same acceptance, top-level box list, sizes, File.Size, non-mdat boxes structurally equal, mdat StartPos/LargeSize/HeaderSize/PayloadAbsoluteOffset relative to the decode start in both modes, segments/fragments/moofs, File.Info at one of all:1, all:2, mdat:2; every 4th placement also decodes in memory from the advanced reader to confirm that this is the in-memory decode of the bytes from there on. Then every lazy mdat is read (whole payload, first byte, last byte, 2 random ranges; ReadData + CopyData) and every track of a progressive file copied (all samples, work buffers nil and 7) through readers in which offset 0 is the decode start (bytes.Reader over those bytes, io.SectionReader starting at the decode start): the file's bytes. " +
+			"(c) Box-level loop: the file decoded box by box with DecodeBox (bytes.Reader over the file) and with DecodeBoxLazyMdat, the caller adding Size() to the position as DecodeFile does; first position handed in 0, 1, 8, 4000, random < 2^20 or 2^32+k (positions of an enclosing file), the lazy loop's reader standing at offset 0, 1, 7, 1000 or random < 3001 of a blob with other bytes in front, so that the positions handed in are mostly not the reader's offsets: same outcome per call (box, error, io.EOF), the loop ends after exactly the walker's boxes, type and Size per box = the other loop = the walker, non-mdat boxes structurally equal, mdat StartPos/HeaderSize/PayloadAbsoluteOffset = the position handed in; then the whole payload of every lazy mdat through ReadData and CopyData with a virtual reader of the enclosing file (that many other bytes, then the file). " +
 			"For progressive files with a reference expansion: File.CopySampleData for all sample intervals of tracks with at most 12 samples (boundary + 40 random otherwise) x work buffers {nil, 1, 2, 3, 7, 16, 4096, total+5} in lazy mode and {nil, 7} in memory mode = concatenation of the samples' bytes. " +
 			"Non-trivial = a file both modes accept that has an mdat with at least 2 payload bytes on which range comparisons ran (hash of the file bytes); evaluations = individual data calls and tree comparisons.",
 		Assumptions: []string{
@@ -112,6 +115,10 @@ func init() {
 			"Fragment.GetFullSamples does not exist for a lazily decoded mdat (it needs mdat.Data); the lazy counterpart is GetSampleInterval/ref-located ranges + ReadData/CopyData",
 			"ranges outside the mdat payload are outside the property's domain: only 'no wrong bytes' is checked there, a panic there is recorded as coverage, not as a violation",
 			"an mdat with an empty payload is not 'lazy' for the library (IsLazy false); equality of the two modes is still required",
+			"DecodeFile counts box positions from 0 at the first byte it reads, in both modes (an io.Reader has no position): a decode that starts at offset X of a ReadSeeker records positions relative to X, and ReadData/CopyData/CopySampleData, which seek to recorded positions with io.SeekStart, then need a reader in which offset 0 is the decode start; confirmed on every 4th placement by the in-memory decode from the advanced reader (a disagreement there would be reported as inconclusive, not as a violation)",
+			"DecISMFlag makes DecodeFile seek to the end and back to offset 0 of the reader in both modes, so it cannot be combined with a decode start other than offset 0; the advanced-reader family drops that flag",
+			"File.Info is a rendering of the box tree with its sizes (observe_at of the property names the Info dump): the two trees being the same tree, every level spec must print the same text; compared before sample access fills trun defaults into one tree",
+			"DecodeBoxLazyMdat(pos, rs) takes the position from the caller and reads at the reader's current offset: the two need not be the same numbers (boxes cut out of, or stored inside, an enclosing file)",
 		},
 		Setup: setup,
 		// a case normally takes milliseconds; a data call that never returns in one mode is a difference between the modes
@@ -135,6 +142,13 @@ func init() {
 				}
 				if a.Counters[k] == 0 {
 					a.Note("%s was never evaluated", k[5:])
+				}
+			}
+			for _, k := range []string{"info_pairs_compared:all:2", "info_pairs_compared:mdat:2", "info_pairs_compared:all:1,mdat:3", "info_pairs_compared:random-per-box-spec",
+				"advanced_trees_equal:behind-a-prefix", "advanced_trees_equal:second-of-two-stored-copies", "advanced_trees_equal:tail-from-a-box-boundary", "advanced_data_calls", "advanced_premise_checked_in_memory_decode_from_the_advanced_reader",
+				"boxloop_files_equal_with_positions_other_than_reader_offsets", "boxloop_lazy_payload_reads"} {
+				if a.Counters[k] == 0 {
+					a.Note("%s is 0", k)
 				}
 			}
 			for _, kind := range readerKindNames {
@@ -180,6 +194,10 @@ type state struct {
 	// held are the most recent lazy ReadData results still in the caller's hands
 	held     [4]heldRead
 	heldNext int
+	// r7 draws for the round-7 families (decode starts other than reader offset 0, box loop, Info level
+	// specs): a generator of its own, derived from the seed and the file bytes, so that the draws of the
+	// earlier families are what they were
+	r7 *runner.Rand
 }
 
 type heldRead struct {
@@ -265,6 +283,7 @@ func (s *state) runFile() {
 	}
 	s.rsK = readerKindNames[s.rsKind]
 	c.Seen("readseeker", s.rsK)
+	s.r7 = runner.NewRand(uint64(c.Env.Seed), runner.Hash64(s.b), 0xc08c7)
 	s.check()
 	for k, n := range s.rdCalls {
 		c.Count("reader:"+k, n)
@@ -403,6 +422,9 @@ func (s *state) check() {
 		c.Violation("info/differs", fmt.Sprintf("%s: File.Info(all:1) differs between the modes: %s (errors %v / %v)", s.name, what, ie1, ie2), s.detail(nil))
 	}
 
+	// the other level specs (before anything touches the trees)
+	s.checkInfoSpecs(fm, fl, nodes)
+
 	// ---- mdat boxes ----
 	compared := false
 	for mi, mp := range mdats {
@@ -423,6 +445,9 @@ func (s *state) check() {
 	if frag {
 		s.checkFragSamples(fm, fl)
 	}
+	// ---- round 7: decode starts other than reader offset 0, box-level decode loop ----
+	s.checkAdvanced(nodes)
+	s.checkBoxLoop(nodes)
 	if compared {
 		c.Nontrivial(runner.Hash64(b))
 	}
